@@ -11,6 +11,8 @@ pub mod c09;
 pub mod c10;
 pub mod c11;
 pub mod c15;
+pub mod c16;
+pub mod c17;
 pub mod common;
 pub mod c20;
 pub mod genpool;
@@ -18,5 +20,5 @@ pub mod genpool;
 use crate::run::PropertyDef;
 
 pub fn all() -> Vec<PropertyDef> {
-    vec![c01::def(), c02::def(), c03::def(), c04::def(), c05::def(), c06::def(), c07::def(), c08::def(), c09::def(), c10::def(), c11::def(), c15::def(), c20::def()]
+    vec![c01::def(), c02::def(), c03::def(), c04::def(), c05::def(), c06::def(), c07::def(), c08::def(), c09::def(), c10::def(), c11::def(), c15::def(), c16::def(), c17::def(), c20::def()]
 }
